@@ -49,6 +49,11 @@ CLAIMED = {
    text="All strings up to length 3 (4 thorough) over a 9-character alphabet with multi-byte characters and HTML/URL specials, through every string filter with all integer arguments -3..12 and short string arguments, plus random strings up to 200 characters, number/bool/nil receivers and split/join round trips, are compared with character-based reference functions, round-trip relations (escape/unescape, url_encode/url_decode), idempotence (escape_once) and UTF-8 validity.",
    note="Trusted: Go's strings/unicode/html/net/url packages used as references. Unspecified: empty search strings, out-of-range slice arguments (only 'a piece, never longer'), truncate below the ellipsis length, truncatewords < 1, size of non-string receivers, malformed url_decode input.",
    ref="DESIGN.md 7.C16"),
+ "C18": dict(
+   technique="property-based testing: metamorphic relation between two realisations of the same logical bindings (canonical vs independently re-represented at every node), on rapid-generated role-typed programs, an exhaustive numeric-width grid and an exhaustive filter x universe x wrapping sweep",
+   text="Role-typed generated programs are rendered against canonical bindings and against bindings in which every node independently takes another representation the statement names (numeric width, typed slice/array/map, ordered map, []byte, Drop at any depth incl. Drop-of-Drop, pointer); every numeric value x width x operator and every filter x universe value x {Drop, nested Drop, pointer, Drop-wrapped elements} as receiver and as argument must render as the unwrapped/canonical form.",
+   note="Trusted: hx.Spec.Realise builds equal logical values. Representations are only used in the positions the statement names (numeric variables not as index/limit/offset, ordered map only lookup and size, []byte only printed, arrays not where a string is expected); type/inspect/json report the Go value by design and are unspecified.",
+   ref="DESIGN.md 7.C18"),
 }
 
 REASON_PENDING = "check not built yet in this snapshot of /verif (planned: see DESIGN.md section 7); nothing is claimed for it"
